@@ -1,2 +1,22 @@
-(* C01 - property statements (theorems are being added) *)
-From Asherah Require Import Envelope.Session.
+(* C01 - anything encrypted decrypts back.
+   FULL STATEMENT (decided today by the correspondence + monitors, proof in progress): for every history, every
+   record returned by a successful Encrypt decrypts to its payload in every session of its partition of every
+   factory sharing the metastore and KMS, at every later time.
+   PROVED here (partial): the cryptographic core for every world and fault plan - what Encrypt seals with an
+   intermediate key, decryptRow opens with any key object holding the same key material; together with C07
+   (nothing else opens) and the frame theorems (store rows are never altered by the SDK, C02). *)
+From Asherah Require Import Envelope.Session Envelope.Frame Envelope.Local Envelope.FrameInst.
+
+Theorem C01_roundtrip_local_partial : forall e ik payload w d w' ek ik2 w2 ikm n,
+  encrypt_with_ik e ik payload w = (inr d, w') -> d_key d = Some ek -> e_key ek = CAead ikm n (PKey (length (w_secrets w))) ->
+  key_bytes ik2 w2 = (inr (PKey ikm), w2) ->
+  fault_at (w_calls w2) (w_faults w2) = None -> fault_at (S (w_calls w2)) (w_faults w2) = None ->
+  fst (decrypt_row ik2 ek (d_data d) w2) = inr payload.
+Proof. exact roundtrip_local. Qed.
+Print Assumptions C01_roundtrip_local_partial.
+
+(* rows written to the metastore are never modified or removed by any SDK operation, so the key chain a
+   record names stays loadable for ever *)
+Theorem C01_key_rows_persist : forall h o, sdk_op o = true -> store_ext (h_world h) (h_world (snd (hstep h o))).
+Proof. exact sdk_store_append_only. Qed.
+Print Assumptions C01_key_rows_persist.
